@@ -208,19 +208,53 @@ def corr_run(suites, seed, tier, feats=('v3', 'v2', 'alt')):
             sh("rm -rf %s" % d)
         return result
 
-def suite_cases(p, s, seed):
+_PLANS = {}
+def fault_plan(p, feat, hexe, cdir):
+    """fault points per call from the fault-free REAL traces of `new; op` (every canonical op): {op text: [k..], 'new': [k..]}"""
+    key = (p.name, feat, hexe)
+    if key in _PLANS:
+        return _PLANS[key]
+    cases = gen.suite_faultprobe(p)
+    path = os.path.join(cdir, "%s-%s-faultprobe.script" % (p.name, feat))
+    open(path, 'w').write('\n'.join(cases) + '\n')
+    r = subprocess.run([hexe, 'run', path], stdout=subprocess.PIPE, stderr=subprocess.PIPE, text=True, env=dict(os.environ, EPD_FEAT=feat))
+    plan = {}
+    try:
+        out = corr.parse_out(r.stdout)
+        ops = gen.fault_ops(p)
+        for i, a in enumerate(ops):
+            c = out.get("q%d" % i) or out.get("q%d panel=%s" % (i, p.name))
+            if c is None:
+                for k2, v2 in out.items():
+                    if k2.split(' ')[0] == "q%d" % i:
+                        c = v2
+            if not c:
+                continue
+            if 'new' not in plan and c[0][3] is not None and c[0][3].startswith('OK'):
+                plan['new'] = gen.transfer_points(c[0][2])
+            if len(c) > 1 and c[1][3] is not None and c[1][3].startswith('OK'):
+                plan[' '.join(a)] = gen.transfer_points(c[1][2])
+    except Exception as e:          # a broken probe must not hide faults: fall back to the fixed list
+        plan = {}
+    _PLANS[key] = plan
+    return plan
+
+def suite_cases(p, s, seed, feat=None, hexe=None, cdir=None):
     rng = gen.Rng(seed * 1000003 + corr.hash_name(p.name + s))
     if getattr(p, 'big', False):
         import gen_big
         return gen_big.suite(s, rng)
-    return gen.suite(p, s, rng)
+    plan = None
+    if s in ('fault', 'faultdense') and hexe:
+        plan = fault_plan(p, feat, hexe, cdir)
+    return gen.suite(p, s, rng, plan=plan)
 
 def run_tasks(panels, feat, suites, seed, hexe, mexe, cdir, jobs=16):
     from concurrent.futures import ThreadPoolExecutor
     tasks = []
     for p in panels:
         for s in suites:
-            cases = suite_cases(p, s, seed)
+            cases = suite_cases(p, s, seed, feat, hexe, cdir)
             n = max(1, min(8, len(cases) // 60))
             for i in range(n):
                 part = cases[i::n]
